@@ -14,6 +14,7 @@ CONSTANTS
   Tag = "C04F"
   SoftTargets <- FSoft
   HardTargets <- AllPaths
+  LinkCounts = {}
   SureCases = FALSE
   OnlyLastMayFail = TRUE
 SPECIFICATION LSpec
